@@ -99,7 +99,10 @@ def build(cfg, memdir=None):
 
     rng = np.random.default_rng(777 + cfg["seed"])
     system = mici.systems.EuclideanMetricSystem(nld, grad_neg_log_dens=grad_nld)
-    integ = mici.integrators.LeapfrogIntegrator(system, step_size=0.4)
+    if cfg.get("integrator") == "implicit_midpoint":
+        integ = mici.integrators.ImplicitMidpointIntegrator(system, step_size=0.3)
+    else:
+        integ = mici.integrators.LeapfrogIntegrator(system, step_size=0.4)
     if cfg["sampler"] == "static":
         sampler = mici.samplers.StaticMetropolisHMC(system, integ, rng, n_step=2)
     else:
@@ -381,7 +384,22 @@ def check_config(cfg, acc):
                 acc.count("evaluations")
                 _judge_one(cfg, ref, r, target, mode, acc, viol, ctx.choices)
 
-            explore(run, on_leaf, bound=cfg["bound"], max_leaves=cfg.get("max_leaves", 200))
+            from mc.explore_choice import Divergence
+
+            for attempt in range(3):
+                try:
+                    explore(run, on_leaf, bound=cfg["bound"],
+                            max_leaves=cfg.get("max_leaves", 200))
+                    break
+                except Divergence as e:
+                    # a replayed prefix behaved differently from the execution that produced
+                    # it: the harness's own nondeterminism (seen rarely under heavy machine
+                    # load).  The exploration of this interrupt point is repeated from scratch;
+                    # three divergences in a row are a hard error.
+                    acc.count("divergence_retries")
+                    acc.notes["last_divergence"] = str(e)[:400]
+                    if attempt == 2:
+                        raise
         else:
             acc.count("evaluations")
             _judge_one(cfg, ref, execute(target), target, mode, acc, viol, None)
@@ -420,6 +438,11 @@ def configs(tier, seed):
                                 "n_main": 2, "trace_warm_up": twu, "sampler": sampler,
                                 "seed": seed}
                         cfgs.append(dict(base, mode="sequential"))
+                        if n_chain == 1 and storage == "memory" and twu:
+                            # interrupts arriving inside the fixed-point iteration of an
+                            # implicit integrator
+                            cfgs.append(dict(base, mode="sequential",
+                                             integrator="implicit_midpoint"))
                         if n_chain >= 2:
                             cfgs.append(dict(base, mode="simulated", n_process=2,
                                              bound=0 if (quick or n_chain == 3) else 1,
